@@ -105,7 +105,11 @@ func c09Session(c *Ctx, server bool, pmd bool, fault string, k int, tag string) 
 		if api == "file" {
 			op.Reader = newChunkReader([][]byte{[]byte("late")}, "sep")
 		}
-		if r := rawSend(conn, op); r != 1 {
+		r := -1
+		if !runWithTimeout(5*time.Second, func() { r = rawSend(conn, op) }) {
+			return fmt.Sprintf("%s after teardown did not return within 5 s (a writer left behind)", api), "fault-late-write-hang", replay
+		}
+		if r != 1 {
 			return fmt.Sprintf("%s after teardown returned %d", api, r), "fault-late-write", replay
 		}
 	}
@@ -134,10 +138,10 @@ func runC09(c *Ctx) error {
 	c.Sum.Rule = "scripted sessions (buffered write, streamed 3-segment write, async write, deadline call, read loop over text / ping / fragments / close with an echoing handler, local close) on both roles with and without compression, with ONE fault injected at every index k of every transport operation kind {write error, short write, read error, deadline error, disconnect after k inbound bytes}: no panic, finishes, OnClose exactly once with an error, transport closed exactly once, later writes rejected without touching the wire, nothing after the Close frame, goroutine count back to baseline; handshakes in both roles with a fault at every write/read index: error returned, no connection, transport closed; D10 replayed as a known finding; non-trivial = all; distinct by (role, fault, k)"
 	for _, server := range []bool{true, false} {
 		for _, pmd := range []bool{false, true} {
-			if c.quick() && pmd && !server {
-				continue
-			}
 			for _, fault := range []string{"none", "write-error", "short-write", "read-error", "deadline-error", "disconnect"} {
+				if c.quick() && pmd && !server && fault != "write-error" && fault != "short-write" {
+					continue // quick tier: a compressing client only under write faults (its compressor is shared with Broadcast and locked separately)
+				}
 				maxK := map[string]int{"none": 1, "write-error": 12, "short-write": 12, "read-error": 14, "deadline-error": 2, "disconnect": 60}[fault]
 				step := 1
 				if fault == "disconnect" && c.quick() {
